@@ -1,4 +1,4 @@
-import Pocket.Lemmas.Burn
+import Pocket.Lemmas.EventOrder
 /- Order independence, whitespace tolerance and unknown members of `Filter::from_json` (C07).
 
 A filter text is a list of members in ANY order: the six NIP-01 members (values rendered as `as_json`
